@@ -663,6 +663,14 @@ func main() {
 		precedenceUsesOf(repo+"/tinyfo/parser.go", []string{"parseExprWithPrecedence", "parseExpr"}, "tinyPrecedenceUses", ".precedence")
 		callArgs(repo+"/tinyfo/parser.go", "parseExpr", "parseExprWithPrecedence", "tinyParseExprMinPrec")
 		fmt.Println("end Folang.Generated")
+	case "offside":
+		fmt.Println("namespace Folang.Generated")
+		columnUses(repo)
+		fmt.Println("end Folang.Generated")
+	case "recipe":
+		fmt.Println("namespace Folang.Generated")
+		recipeFacts(repo)
+		fmt.Println("end Folang.Generated")
 	case "globals":
 		fmt.Println("namespace Folang.Generated")
 		pkgGlobals(repo+"/fc", "fcGlobals")
